@@ -216,7 +216,92 @@ func genC18(c *RunCtx) []*Batch {
 			}
 		}
 	}
+	infixAliasCheck(c)
 	return []*Batch{b, evalBatchOps(c, "C18", scalar)}
+}
+
+// infixAliasCheck: in infix notation too an alias behaves like its named form: a conventionally written expression over
+// the logic and comparison operators is evaluated with one spelling of each operator and again with another spelling
+// of the same operators, and as the prefix form of the tree - all three must agree on every binding.
+func infixAliasCheck(c *RunCtx) {
+	r := c.R
+	fam := map[string][]string{"&": {"&", "&&"}, "&&": {"&", "&&"}, "|": {"|", "||"}, "||": {"|", "||"}, "=": {"=", "=="}, "==": {"=", "=="}}
+	var gen func(d int) *GT
+	gen = func(d int) *GT {
+		if d <= 0 || r.Intn(5) == 0 {
+			switch r.Intn(4) {
+			case 0:
+				return gop([]string{"=", "==", "<", "!="}[r.Intn(4)], gvar(pick(r, intVars)), gconst(int64(r.Intn(3))))
+			case 1:
+				return gop("!", gvar(pick(r, boolVars)))
+			default:
+				return gvar(pick(r, boolVars))
+			}
+		}
+		return gop([]string{"&", "&&", "|", "||"}[r.Intn(4)], gen(d-1), gen(d-1))
+	}
+	var respell func(t *GT) *GT
+	respell = func(t *GT) *GT {
+		n := &GT{Kind: t.Kind, Val: t.Val, Name: t.Name}
+		if f, ok := fam[t.Name]; ok && t.Kind == "op" {
+			n.Name = f[r.Intn(len(f))]
+		}
+		for _, ch := range t.Ch {
+			n.Ch = append(n.Ch, respell(ch))
+		}
+		return n
+	}
+	plain := func(t *GT) string { // no redundant parentheses: a fixed source of randomness that never wraps
+		return infixRender(NewRand(1), t, 0)
+	}
+	n := c.N(150, 6000)
+	for k := 0; k < n; k++ {
+		t := gen(2 + r.Intn(3))
+		if t.Kind != "op" {
+			continue
+		}
+		u := respell(t)
+		vals := map[string]interface{}{}
+		for _, v := range boolVars {
+			vals[v] = r.Bool()
+		}
+		for _, v := range intVars {
+			vals[v] = int64(r.Intn(3))
+		}
+		run := func(src string, infix bool) string {
+			conf := eval.NewConfig(eval.RegVarAndOp(vals), eval.Optimizations(r.Bool()))
+			if infix {
+				conf.CompileOptions[eval.InfixNotation] = true
+			}
+			e, err, pan := compileSafe(conf, src)
+			if err != nil || pan != nil || e == nil {
+				return fmt.Sprintf("compile: %v %v", err, pan)
+			}
+			res := ""
+			guarded(map[string]interface{}{"call": "Eval (infix alias)", "source": src}, func() {
+				defer func() {
+					if p := recover(); p != nil {
+						res = fmt.Sprintf("panic: %v", p)
+					}
+				}()
+				v, er := e.Eval(eval.NewCtxFromVars(conf, vals))
+				if er != nil {
+					res = "error: " + er.Error()
+				} else {
+					res = fmt.Sprintf("%T %v", v, v)
+				}
+			})
+			return res
+		}
+		c.ExploreEvals++
+		c.ExploreHist["infix-alias"]++
+		s1, s2 := plain(t), plain(u)
+		r0, r1, r2 := run(t.Src(), false), run(s1, true), run(s2, true)
+		if r0 != r1 || r1 != r2 {
+			c.Direct = append(c.Direct, DirectViolation{What: "in infix notation an alias spelling does not behave like the other spelling of the same operator (or like the prefix form)", Sig: "c18-infix-alias",
+				Sample: map[string]interface{}{"prefix": t.Src(), "infix_a": s1, "infix_b": s2, "values": fmt.Sprint(vals), "prefix_result": r0, "infix_a_result": r1, "infix_b_result": r2}})
+		}
+	}
 }
 
 func randIntList(r *Rand, n int, universe int64, base int64) []int64 {
@@ -391,6 +476,14 @@ func genC19(c *RunCtx) []*Batch {
 			ps = []interface{}{s}
 		case 1:
 			ps = []interface{}{s, int64(r.Intn(9) - 2)}
+			if r.Intn(3) == 0 {
+				// lengths far outside 1..4, among them the ones that equal 1..4 after truncation to 8, 16 or 32 bits
+				w := []int64{1 << 8, 1 << 16, 1 << 32, -(1 << 8), -(1 << 16), 1 << 62}[r.Intn(6)]
+				ps = []interface{}{s, w + int64(r.Intn(6))}
+				if r.Intn(4) == 0 {
+					ps = []interface{}{s, []int64{math.MaxInt64, math.MinInt64, math.MinInt64 + 3, 5, 127, 128, 255, 65535}[r.Intn(8)]}
+				}
+			}
 		case 2:
 			ps = []interface{}{s, randWrong(r)}
 		case 3:
